@@ -74,6 +74,12 @@ pub struct ImgStats {
     pub seeks_foreign_leaf: u64,
     pub seeks_rebuilt: u64,
     pub seeks_max_siblings: u64,
+    pub pages_reencoded: u64,
+    pub bytes_reencoded_equal: u64,
+    pub reencode_undefined_nonzero_bytes: u64,
+    pub reencode_noncanonical_separators: u64,
+    pub reencode_ms_total: f64,
+    pub reencode_undefined_nonzero_by_kind: [u64; 4],
 }
 
 impl ImgStats {
@@ -125,6 +131,14 @@ impl ImgStats {
         self.seeks_foreign_leaf += o.seeks_foreign_leaf;
         self.seeks_rebuilt += o.seeks_rebuilt;
         self.seeks_max_siblings = self.seeks_max_siblings.max(o.seeks_max_siblings);
+        self.pages_reencoded += o.pages_reencoded;
+        self.bytes_reencoded_equal += o.bytes_reencoded_equal;
+        self.reencode_undefined_nonzero_bytes += o.reencode_undefined_nonzero_bytes;
+        self.reencode_noncanonical_separators += o.reencode_noncanonical_separators;
+        self.reencode_ms_total += o.reencode_ms_total;
+        for k in 0..4 {
+            self.reencode_undefined_nonzero_by_kind[k] += o.reencode_undefined_nonzero_by_kind[k];
+        }
     }
 }
 
@@ -637,6 +651,41 @@ fn check_point<H: HashAlgorithm>(
             out.stats.seeks_max_siblings = out.stats.seeks_max_siblings.max(ns as u64);
         }
         drop(sess);
+    }
+
+    // the page formats (coq/theories/NodeCodec.v, encoders written from LeafBuilder / BranchNodeBuilder /
+    // overflow.rs::chunk / Meta::encode_to): every leaf, branch and overflow page and the manifest is
+    // ENCODED again from its decoded content and compared with the file on all bytes the builders define
+    {
+        let t_re = std::time::Instant::now();
+        let reply = r.model.ask_multi("imgreencode");
+        out.stats.reencode_ms_total += t_re.elapsed().as_secs_f64() * 1e3;
+        for l in &reply {
+            let t: Vec<&str> = l.split(' ').collect();
+            if t.len() >= 5 && t[0] == "reencode" && t[1] == "FAIL" {
+                fail(out, "reencode", format!("re-encoding the decoded {} page {} does not give the bytes of the file: FAIL EReencode {} {} (first differing defined byte offset; 4096 = length, 4097 = unreadable)", t[2], t[3], t[3], t[4]));
+            } else if t.len() >= 2 && t[0] == "reencode" && t[1] == "note" {
+                // development aid: VERIF_REENCODE_SNAP=<dir> keeps a copy of the image a note is about
+                if let Ok(d) = std::env::var("VERIF_REENCODE_SNAP") {
+                    let dst = std::path::Path::new(&d).join(format!("snap-{}-{}", std::process::id(), i));
+                    let _ = std::fs::create_dir_all(&dst);
+                    for f in ["meta", "ln", "bbn", "ht"] {
+                        let _ = std::fs::copy(r.dir.join(f), dst.join(f));
+                    }
+                    eprintln!("{} -> {}", l, dst.display());
+                }
+            } else if t.len() >= 2 && t[0] == "reencode" && (t[1] == "ok" || t[1] == "bad") {
+                let kv = parse_kv_line(l);
+                let g = |k: &str| kv.get(k).copied().unwrap_or(0);
+                out.stats.pages_reencoded += g("leaves") + g("branches") + g("overflow") + g("manifest");
+                out.stats.bytes_reencoded_equal += g("bytes_compared");
+                out.stats.reencode_undefined_nonzero_bytes += g("undef_nonzero");
+                out.stats.reencode_noncanonical_separators += g("noncanon");
+                for (k, name) in ["undef_nonzero_leaf", "undef_nonzero_branch", "undef_nonzero_overflow", "undef_nonzero_manifest"].iter().enumerate() {
+                    out.stats.reencode_undefined_nonzero_by_kind[k] += g(name);
+                }
+            }
+        }
     }
 
     // statistics, occupancy
@@ -1175,6 +1224,15 @@ fn stats_json(s: &ImgStats) -> J {
         ("seeks_ending_in_a_foreign_leaf", J::Int(s.seeks_foreign_leaf as i64)),
         ("seeks_through_rebuilt_elided_pages", J::Int(s.seeks_rebuilt as i64)),
         ("seeks_max_siblings", J::Int(s.seeks_max_siblings as i64)),
+        ("pages_reencoded", J::Int(s.pages_reencoded as i64)),
+        ("bytes_reencoded_equal", J::Int(s.bytes_reencoded_equal as i64)),
+        ("reencode_nonzero_bytes_in_undefined_regions", J::Int(s.reencode_undefined_nonzero_bytes as i64)),
+        ("reencode_nonzero_undefined_bytes_in_leaf_gaps", J::Int(s.reencode_undefined_nonzero_by_kind[0] as i64)),
+        ("reencode_nonzero_undefined_bytes_in_branch_gaps", J::Int(s.reencode_undefined_nonzero_by_kind[1] as i64)),
+        ("reencode_nonzero_undefined_bytes_behind_overflow_data", J::Int(s.reencode_undefined_nonzero_by_kind[2] as i64)),
+        ("reencode_nonzero_undefined_bytes_behind_the_manifest", J::Int(s.reencode_undefined_nonzero_by_kind[3] as i64)),
+        ("reencode_separators_with_noncanonical_length", J::Int(s.reencode_noncanonical_separators as i64)),
+        ("reencode_ms_per_image_mean", J::Num(if s.images > 0 { s.reencode_ms_total / s.images as f64 } else { 0.0 })),
         ("ms_per_image_mean", J::Num(if s.images > 0 { s.check_ms_total / s.images as f64 } else { 0.0 })),
         ("ms_per_image_max", J::Num(s.check_ms_max)),
     ])
